@@ -26,7 +26,8 @@ func verifC02Handover(strategyKind int) {
 	verifrt.Assume(s.revKind != 2) // unparsable annotation: no recorded revision to compare with
 	// the object's manifest in the ObjectSet may itself carry Package Operator's revision annotation (a manifest
 	// exported from another cluster): what gets recorded is the writer's revision all the same
-	if verifrt.Bool("template.carriesRevisionAnnotation") {
+	variant := verifrt.IntRange("variant", 0, 2) // plain | manifest carries a revision annotation | legacy field manager
+	if variant == 1 {
 		s.desired.SetAnnotations(map[string]string{corev1alpha1.ObjectSetRevisionAnnotation: "1", "example.com/note": "user"})
 	}
 	byMe := s.specControlledByMe()
@@ -35,6 +36,20 @@ func verifC02Handover(strategyKind int) {
 	verifrt.Assume(verifrt.Implies(byMe, s.objRev == s.myRev))
 
 	w := &vWriter{}
+	// the object may last have been written by an older release (client-side apply): its field managers are migrated
+	// with a JSON patch before the apply; like every patch it is answered with the object as stored
+	if variant == 2 {
+		_ = unstructured.SetNestedSlice(s.existing.Object, []interface{}{map[string]interface{}{
+			"manager": "package-operator-manager", "operation": "Update", "apiVersion": "v1",
+			"fieldsType": "FieldsV1", "fieldsV1": map[string]interface{}{"f:data": map[string]interface{}{"f:k": map[string]interface{}{}}},
+		}}, "metadata", "managedFields")
+	}
+	stored := s.existing.DeepCopy()
+	w.Respond = func(obj client.Object, wr *vWrite) {
+		if wr.PatchType == types.JSONPatchType && !wr.DryRun {
+			obj.(*unstructured.Unstructured).Object = stored.DeepCopy().Object
+		}
+	}
 	cache := &vCache{vReader{Objs: map[client.ObjectKey]*unstructured.Unstructured{}}}
 	uncached := &vReader{Objs: map[client.ObjectKey]*unstructured.Unstructured{}}
 	cache.Objs[s.key] = s.existing
